@@ -345,8 +345,10 @@ func (g *fxGen) hostile() ([]fxOp, bool) {
 			}
 		}
 		return []fxOp{g.frameOp("cancel frame", rawFrameBytes(0xc0, id, payload), !legal)}, false
-	case 9: // ping req (with a payload)
-		return []fxOp{g.frameOp("ping req", rawFrameBytes(0xd0, g.fresh(), []byte(randBytes(rng, pick(rng, 0, 0, 5)))), !g.active)}, !g.active
+	case 9: // ping req (with a payload): legal on every connection that is not Closed -- a connection
+		// draining after a local Close answers it too (a run ends when the connection reaches Closed,
+		// so no generated ping meets a Closed connection) -- and the sequence goes on
+		return []fxOp{g.frameOp("ping req", rawFrameBytes(0xd0, g.fresh(), []byte(randBytes(rng, pick(rng, 0, 0, 5)))), false)}, false
 	case 10: // size field below the header size
 		f := append([]byte{}, validReq(g.fresh(), 1, rng)[0]...)
 		sz := pick(rng, 0, 1, 15)
@@ -444,7 +446,8 @@ func genFxCase(rng *rand.Rand) *fxCase {
 			for i := 0; i < c.room+1+rng.Intn(2); i++ {
 				c.ops = append(c.ops, g.frameOp("valid call req", validReq(g.fresh(), 1, rng)[0], true))
 			}
-			c.ops = append(c.ops, g.frameOp("ping req", rawFrameBytes(0xd0, g.fresh(), nil), true))
+			// a legal frame on the draining connection; its answer finds the send buffer full
+			c.ops = append(c.ops, g.frameOp("ping req", rawFrameBytes(0xd0, g.fresh(), nil), false))
 		} else {
 			for i := 0; i < c.room+1; i++ {
 				c.ops = append(c.ops, g.frameOp("ping req", rawFrameBytes(0xd0, g.fresh(), nil), false))
